@@ -1,12 +1,12 @@
 #!/bin/sh
 # For every kept seeded change: run its property's quick check against a scratch worktree with the patch applied.
 # (meta.json may name another check in "check" when the change lies in that check's territory.)
-# Prints one line per seed: DETECTED / MISSED / BROKEN.
+# Prints one line per seed: DETECTED / MISSED / BROKEN (+ the reason).  Usage: seed_sweep.sh [prefix]
 cd "$(dirname "$0")" || exit 2
-for d in seeded/*/; do
+for d in seeded/${1:-}*/; do
   id=$(basename "$d")
   prop=$(/venv/bin/python -c "import json;m=json.load(open('$d/meta.json'));print(m.get('check') or m['property'])")
   out=$(./seedtest.sh "$(pwd)/$d/patch.diff" "$prop" 2>&1)
-  if echo "$out" | grep -q '^VIOLATION'; then v=DETECTED; elif echo "$out" | grep -q BROKEN; then v=BROKEN; else v=MISSED; fi
+  if echo "$out" | grep -q '^VIOLATION'; then v=DETECTED; elif echo "$out" | grep -q BROKEN; then v="BROKEN $(echo "$out" | grep BROKEN | head -1 | cut -c1-200)"; else v="MISSED $(echo "$out" | tail -1 | cut -c1-120)"; fi
   echo "$id $prop $v"
 done
